@@ -21,8 +21,26 @@ pub struct Corr {
     pub mid: u16,
 }
 
-fn check_response_for(m: &Msg, _acc: &mut Acc) -> Result<(), Fail> {
-    let p = from_msg(m);
+fn check_response_for(m: &Msg, acc: &mut Acc) -> Result<(), Fail> {
+    check_response_for_packet(m, from_msg(m), acc)?;
+    // the same code byte as a caller can build it by hand: the UnKnown
+    // placeholders (byte 0xFF) and Reserved(0) (byte 0x00)
+    use coap_lite::{MessageClass, RequestType};
+    let by_hand: Vec<MessageClass> = match m.code {
+        0xFF => vec![MessageClass::Request(RequestType::UnKnown), MessageClass::Response(ResponseType::UnKnown)],
+        0x00 => vec![MessageClass::Reserved(0)],
+        _ => vec![],
+    };
+    for code in by_hand {
+        let mut p = from_msg(m);
+        p.header.code = code;
+        acc.class("code-variant-built-by-hand");
+        check_response_for_packet(m, p, acc)?;
+    }
+    Ok(())
+}
+
+fn check_response_for_packet(m: &Msg, p: coap_lite::Packet, _acc: &mut Acc) -> Result<(), Fail> {
     let resp = match catch(|| CoapResponse::new(&p)) {
         Ok(r) => r,
         Err(msg) => fail!("c07-new-panic", "CoapResponse::new panicked: {msg}"),
